@@ -60,6 +60,8 @@ def generate(rng, tier, shard, nshards):
         dt = gens.logu(rng, 1e-3, 5e-2)
         W = np.cumsum(rng.standard_normal((N, 3)), axis=0) * gens.logu(rng, 1e-3, 0.02) / dt + gens.axis(rng) * gens.logu(rng, 1e-2, 0.1) / dt
         W *= min(1.0, 0.3 / (np.linalg.norm(W, axis=1).max() * dt))
+        if i % 8 == 5:      # a platform drifting by micro-radians per second: the whole sequence turns by less than 1e-8 rad per sample
+            W *= gens.logu(rng, 1e-7, 1e-5) / np.linalg.norm(W, axis=1).max()
         yield Case("sequence", "sequence", q0=gens.unit(rng), W=W, dt=dt)
 
 
@@ -328,14 +330,16 @@ def check_sequence(case, ctx):
     alt = call(lambda: (np.asarray(ahrs.QuaternionArray(QS.copy(), order="S").angular_velocities(dt), float),
                         np.asarray(ahrs.QuaternionArray(Q[:2].copy()).angular_velocities(dt), float)))
     if ctx.returned(alt, clause="no-exception[order=S / two rows]", route=r):
-        ctx.le("angular_velocities of the scalar-last copy of the sequence = those of the sequence", float(np.abs(alt.value[0] - Wr).max() / max(np.abs(Wr).max(), 1e-300)), 1e-12, route=r)
-        ctx.le("angular_velocities of the first two rows = first row of the full result", float(np.abs(alt.value[1].reshape(-1) - Wr[0]).max() / max(np.abs(Wr).max(), 1e-300)), 1e-12, route=r)
+        # (re-normalising a copy moves a component by an ulp, which is a rate of 2 ulp / dt whatever the rate itself: absolute floor 1e-15 / dt)
+        sc_ = max(np.abs(Wr).max(), 1e-300)
+        ctx.le("angular_velocities of the scalar-last copy of the sequence = those of the sequence", float(np.abs(alt.value[0] - Wr).max() / (sc_ + 1e-3 / dt)), 1e-12, route=r)
+        ctx.le("angular_velocities of the first two rows = first row of the full result", float(np.abs(alt.value[1].reshape(-1) - Wr[0]).max() / (sc_ + 1e-3 / dt)), 1e-12, route=r)
     # the sensor-simulation class recovers the rates of a quaternion sequence it is given, too (rows 1.. of ang_vel): the same rates, through however
     # many turns the sequence goes (roll or yaw passing +-180 deg, pitch passing +-90 deg on the way)
     sv = call(lambda: np.asarray(ahrs.Sensors(quaternions=ahrs.QuaternionArray(Q.copy()), freq=1.0 / dt).ang_vel, float))
     if ctx.returned(sv, clause="no-exception[Sensors(quaternions=).ang_vel]", route=r):
         if ctx.ok("Sensors(quaternions=).ang_vel has one row per sample", sv.value.shape == (len(W), 3), {"shape": list(sv.value.shape)}, route=r):
-            ctx.le("Sensors(quaternions=Q, freq=1/dt).ang_vel[1:] = the rates recovered from Q", float(np.abs(sv.value[1:] - Wr).max() / max(np.abs(Wr).max(), 1e-300)), 1e-9,
+            ctx.le("Sensors(quaternions=Q, freq=1/dt).ang_vel[1:] = the rates recovered from Q", float(np.abs(sv.value[1:] - Wr).max() / (max(np.abs(Wr).max(), 1e-300) + 1e-6 / dt)), 1e-9,
                    {"first_bad_row": int(np.argmax(np.abs(sv.value[1:] - Wr).max(axis=1) > 1e-9 * np.abs(Wr).max())), "N": len(W)}, route=r)
     x = np.linalg.norm(W[1:], axis=1) * dt
     ctx.le("recovered rates equal the true rates to first order (error / (x^3/12 + 1e-12))",
